@@ -47,12 +47,14 @@ var Check = &run.Check{
 	Rule: "case = synthesised commit list (0-30 commits with >= 1 change each, 1-8 authors, <= 15 created files, create/modify/delete/re-create of a deleted path, rename chains <= 4 per file " +
 		"printed in git's own notation: `dir/{a => b}`, `{a => b}/f`, `dir/{ => sub}/f`, `dir/{sub => }/f`, full-path `a => b` (root <-> directory, other directory + new name), for half of the root <-> directory moves the brace form with an empty prefix `{ => d}/f`, `{d => }/f`, renames back to an earlier name; " +
 		"in a third of the histories two authors differ only in letter case; every 201st history instead has one file touched by 100-130 distinct authors (one revision each) next to 1-3 files with 1-3 more revisions by one author; " +
-		"non-decreasing dates with many ties; conventional and free subjects; order of changes inside a commit shuffled); every 4th case goes through rendered log text + BuildMessageByInput; " +
+		"dates with many ties, non-decreasing except that in a third of the histories about every 6th commit is dated 1-60 days before its predecessor (such a commit only creates files); about every 25th change of an existing file is a second `create` of that path (added on two merged branches); " +
+		" conventional and free subjects; order of changes inside a commit shuffled); every 4th case goes through rendered log text + BuildMessageByInput; " +
 		"observed = GetTeamSummary, CalculateCodeAge, GetTopAuthors, BasicSummary, BuildChangeMap in-process, each on its own deep copy, then ShowChangeLogSummary + BuildChangeMap followed by the four summaries on ONE shared list (results must equal the fresh-copy results); every Nth case instead a real repository (gen/gitgen) with `coca git -b|-t|-a|-o|-m` tables " +
 		"judged against the fold of coca_reporter/commits.json; non-trivial = >= 4 commits, >= 2 authors, >= 1 rename and >= 1 deletion; distinct = hash of the op/notation/author-index/date-step structure (no names)",
 	Assumptions: []string{
 		"inside one commit a path is touched once, rename sources exist and are not otherwise touched, rename/creation targets do not exist before the commit (the only shapes git prints), so nothing depends on the order of changes inside a commit",
-		"dates are non-decreasing in list order, so 'first-commit date' is unambiguous; revs are unique",
+		"'first-commit date' = the date of the first commit in list order that touched the file; a commit dated earlier than its predecessor touches no file that existed before it, so this is also the file's earliest date (the two readings never differ); revs are unique",
+		"a second `create` of a path that still exists is one more revision and author of the same file (statement: every file that still exists, all commits and authors that touched it)",
 		"team summary / code age: a renamed file keeps its record (authors, revs, first date); ties in revisions / dates may appear in any order",
 		"top authors: only the per-author numbers and their sum are asserted, not the order of the list",
 		"basic summary: Commits and Authors exact; Entities exact on rename-free histories, otherwise only bounded by [distinct creation paths, distinct path strings]; the 'Changes' figure is not in the statement",
@@ -117,7 +119,7 @@ func runCase(c *run.Ctx, o *run.Outcome) {
 		return
 	}
 	r := c.Rng
-	hist, st := gitgen.SynthHistory(r.Fork(), gitgen.SynthOpts{MaxCommits: 30 + 30*(c.Index%2), MaxAuthors: 14, MaxFiles: 15, MaxChain: 4})
+	hist, st := gitgen.SynthHistory(r.Fork(), gitgen.SynthOpts{MaxCommits: 30 + 30*(c.Index%2), MaxAuthors: 14, MaxFiles: 15, MaxChain: 4, NonMonotoneDates: true, DoubleCreate: true})
 	if c.Index%201 == 77 {
 		// "any number of commits, authors and files": one file touched by 100-130 distinct authors next to files with
 		// 1-3 more revisions by a single author (80 such histories in quick, 1000 in thorough)
@@ -156,6 +158,8 @@ func runCase(c *run.Ctx, o *run.Outcome) {
 	o.Count("renames_root_into_dir_brace_{ => d}/f", st.RootIntoDirBrace)
 	o.Count("renames_dir_to_root_brace_{d => }/f", st.DirToRootBrace)
 	o.Count("histories_with_authors_differing_only_in_case", st.TwinAuthors)
+	o.Count("commits_dated_earlier_than_their_predecessor", st.DipCommits)
+	o.Count("second_create_of_an_existing_path", st.DoubleCreates)
 	o.Count("deletes", st.Deletes)
 	o.Count("recreations", st.Recreates)
 	o.Count(fmt.Sprintf("histories_with_max_chain_%d", st.MaxChain), 1)
